@@ -23,6 +23,33 @@ TB_STUB = ['kani::stub of bytes::BytesMut::reserve_inner by a function that asse
            'real function is a proof obligation), used to keep the re-allocation path out of the formula']
 
 PROPS = {
+    'C02': dict(
+        level='proof',
+        verus_units=['broker_serial_map', 'broker_object', 'broker_handlers_calls'],
+        trusted_base=TB_VERUS + TB_CONN + [
+            'contracts of SerialMap / Object / Service / ConnectionState methods are imported verbatim from the units '
+            'that verify them (//@fn-from); ConnectionState::call_data is assumed (tuple-pattern closure)',
+            'ProtocolVersion ordering is opaque in this unit (version gates are C12); vstd specs of HashMap, Option, '
+            'hash_map::OccupiedEntry; assumed std spec of HashMap::get_mut',
+        ],
+        assumptions=[
+            'callers establish calls_inv (Broker::call_function_impl, remove_service, shutdown_connection, '
+            'process_loop_result are NOT verified: ref patterns / for-loops over impl Iterator are outside Verus)',
+            'whether a message is actually put on the wire is not part of the state model (ConnectionState::send has no '
+            'specification); "delivered" is read off the caller\'s pending-call entry being consumed',
+        ],
+        undecided_clauses=[
+            'routing of the call itself and serial translation (call_function_impl)',
+            'InvalidService on service/object destruction and on owner disconnect (remove_service, shutdown_connection, '
+            'process_loop_result); caller disconnect',
+            'the payload is forwarded unchanged (messages are opaque in the state model)',
+        ],
+        explanation='reply acceptance and abort at handler level: Broker::call_function_reply accepts a reply exactly from the '
+                    'owner of the called object for a pending serial, consumes the pending call once, and does not touch '
+                    'the caller\'s entry when the call was aborted; Broker::abort_call marks a pending call aborted once '
+                    'and consumes the caller\'s entry; all other cases change nothing. Proved under a table invariant that '
+                    'also discharges the handlers\' expect("inconsistent state") sites.',
+    ),
     'C10': dict(
         level='proof',
         verus_units=['broker_bus_listener', 'broker_handlers_bus_listener'],
